@@ -2,13 +2,62 @@ import HdVerif.Model.Json
 import HdVerif.Model.FrameAccess
 import HdVerif.Model.Offsets
 import HdVerif.Model.EncapBytes
-open Lean HdVerif HdVerif.Drv HdVerif.Bits HdVerif.Gen HdVerif.FrameAccess HdVerif.Offsets HdVerif.EncapBytes
+import HdVerif.Model.FramePaths
+open Lean HdVerif HdVerif.Drv HdVerif.Bits HdVerif.Gen HdVerif.FrameAccess HdVerif.Offsets HdVerif.EncapBytes HdVerif.FramePaths
 
 def getFrags (j : Json) (k : String) : Except String (List (List Nat)) := do
   let a ← getArr j k
   a.toList.mapM (fun x => do let l ← x.getArr?; l.toList.mapM (·.getNat?))
 
+/-- pydicom's whole-array decode of a native 1-bit image (refused when the pixel data are too short) -/
+def allBits (rows cols n : Nat) (pd : List Nat) : Except ErrKind (List (List Bool)) :=
+  if n * (rows * cols) ≤ 8 * pd.length then .ok ((List.range n).map (sliceBits pd (rows * cols))) else .error .value
+
+/-- run a history on a native 1-bit in-memory image; the answers of the fetch operations, in order -/
+def runHistory (rows cols n : Nat) (pd0 : List Nat) (ops : List Json) : Except String (List Json) := do
+  let one := fun pd k ai => memFrameBits pd rows cols 1 n k ai
+  let all := allBits rows cols n
+  let mut s : Img (List Bool) := ⟨pd0, none⟩
+  let mut out : List Json := []
+  for o in ops do
+    let kind ← getStr o "op"
+    if kind == "fetch" then
+      let sk := if (← getBool o "batch") then batchSkel else singleSkel
+      let r := fetchStep one all n sk s (← getInt o "k") (← getBool o "as_index")
+      s := r.1
+      out := out ++ [exceptToJson boolsToJson r.2]
+    else if kind == "whole" then
+      s := step one all n s .whole
+    else if kind == "replace" then
+      s := step one all n s (.replace (← getNatList o "pd"))
+    else throw "unknown op"
+  pure out
+
 def handlers : List (String × Handler) := [
+  ("getFramesBits", fun j => do
+    let pd ← getNatList j "pd"
+    let rows ← getInt j "rows"; let cols ← getInt j "cols"; let n ← getInt j "n"
+    let r := getFramesFetch (← getBool j "lazy") (memRaw pd rows cols 1 1 "MONOCHROME2") (lazyRaw pd rows cols 1 1 n "MONOCHROME2")
+      n (← getInt j "k") (← getBool j "as_index") >>= decodeFetchedBits rows cols 1
+    pure (exceptToJson boolsToJson r)),
+  ("pixelsBits", fun j => do
+    let pd ← getNatList j "pd"
+    let rows ← getInt j "rows"; let cols ← getInt j "cols"; let n ← getInt j "n"
+    let r := pixelsSkel.fetch (← getBool j "lazy") (memRaw pd rows cols 1 1 "MONOCHROME2") (lazyRaw pd rows cols 1 1 n "MONOCHROME2")
+      n (← getInt j "idx") >>= decodeFetchedBits rows cols 1
+    pure (exceptToJson boolsToJson r)),
+  ("loopCached", fun j => do
+    let n ← getNat j "n"
+    let sk := if (← getBool j "pixels") then pixelsSkel else framesSkel
+    let r := sk.cached (List.range n) 0 (← getInt j "idx")
+    pure (exceptToJson (fun (i : Nat) => (i : Json)) r)),
+  ("lazyWholeBits", fun j => do
+    let r := lazyWholeBits (← getNatList j "pd") (← getInt j "rows") (← getInt j "cols") 1 (← getInt j "n")
+    pure (exceptToJson (fun l => Json.arr (l.map boolsToJson).toArray) r)),
+  ("history", fun j => do
+    let ops ← getArr j "ops"
+    let out ← runHistory (← getNat j "rows") (← getNat j "cols") (← getNat j "n") (← getNatList j "pd") ops.toList
+    pure (okJson (Json.arr out.toArray))),
   ("stdFrameIndex", fun j => do
     let r := stdFrameIndex (← getInt j "k") (← getBool j "as_index") (← getInt j "n")
     pure (exceptToJson (fun (i : Int) => (i : Json)) r)),
